@@ -1158,6 +1158,22 @@ theorem c15_each_repair_needed :
       [.aStep, .cSend (.reuse 0), .rStep, .rStep, .aStep, .emit 0 0 1, .emit 0 1 2, .fStep 0 1, .fStep 0 0,
        .wOut, .wOut]).s2c = [.data 0 2, .data 0 1] := by decide
 
+/-- **one forwarder per distinct channel, also when a channel is revisited**: the client asks for
+channel 0, channel 1, then channel 0 again.  If that third request starts a forwarder of its own
+(here: no `dedupe` at all; the same happens when only the previous request's channel is remembered),
+two values of channel 0 overtake each other; with the code as it is the second forwarder does not
+exist, the same schedule delivers in order. -/
+theorem c15_revisited_channel_needs_one_forwarder :
+    (run ⟨true, true, false⟩ caps10 (init .fresh)
+      [.aStep, .cSend .fresh, .rStep, .rStep, .aStep, .cSend (.reuse 0), .rStep, .rStep, .aStep,
+       .emit 0 0 1, .emit 0 1 2, .fStep 0 1, .fStep 0 0, .wOut, .wOut]).s2c = [.data 0 2, .data 0 1] ∧
+    (run .fixed caps10 (init .fresh)
+      [.aStep, .cSend .fresh, .rStep, .rStep, .aStep, .cSend (.reuse 0), .rStep, .rStep, .aStep,
+       .emit 0 0 1, .emit 0 1 2, .fStep 0 1, .fStep 0 0, .wOut, .wOut]).s2c = [.data 0 1] ∧
+    ((run .fixed caps10 (init .fresh)
+      [.aStep, .cSend .fresh, .rStep, .rStep, .aStep, .cSend (.reuse 0), .rStep, .rStep, .aStep]).streams.map
+        (fun st => (st.fwd, st.extra))) = [(.recv, []), (.recv, [])] := by decide
+
 /-- **the full statement fails for the code before the repairs** (witness (a)) -/
 theorem c15_full_fails_old : ¬ C15_full .old := by
   intro h
